@@ -143,7 +143,9 @@ impl<'ast> Visit<'ast> for V {
     fn visit_expr_call(&mut self, c: &'ast syn::ExprCall) {
         syn::visit::visit_expr_call(self, c);
         let f = squash(&toks(&*c.func));
-        if f.ends_with("::try_from_usize") && c.args.len() == 1 {
+        if f.ends_with("::try_from_usize") && !crate::is_own_key_check(&f) {
+            self.other(&format!("key check on another type: {f}"));
+        } else if f.ends_with("::try_from_usize") && c.args.len() == 1 {
             let a = squash(&toks(&c.args[0]));
             self.out.push(format!("(.keyCheck {})", if self.loop_index.contains(&a) { ".loopIndex" } else { ".other" }));
         } else if f == "Arena::new" && c.args.len() == 2 {
